@@ -32,12 +32,13 @@ def evaluate(spec):
     d0 = _digest(o0)
     v = dict(spec["variant"])
     sub = spec.get("sub")
-    kw = {}
+    # the pcapng that embeds the blocks may be written in either byte order (the block's secrets-type and length fields with it)
+    cont = {"endian": ">"} if v.pop("be", False) else None
     if sub:
         cwd = {"tmp": wd, "root": "/", "work": os.path.dirname(wd)}[sub["cwd"]]
-        o1 = oracle.run_e2e(b, wd, keys=v, name="variant", inproc=False, cwd=cwd, hashseed="0")
+        o1 = oracle.run_e2e(b, wd, keys=v, name="variant", inproc=False, cwd=cwd, hashseed="0", container=cont)
     else:
-        o1 = oracle.run_e2e(b, wd, keys=v, name="variant")
+        o1 = oracle.run_e2e(b, wd, keys=v, name="variant", container=cont)
     f1 = oracle.base_failure(o1)
     dims = (2 if v.get("explicit") or v.get("straddle") else 0) + sum(1 for k in ("shuffle", "crlf") if v.get(k)) + sum(1 for k in ("comments", "blanks", "unrelated", "dup") if v.get(k, 0) > 0) + \
         (1 if v.get("upper", "none") != "none" else 0)
@@ -50,6 +51,7 @@ def evaluate(spec):
     for k in ("shuffle", "crlf", "comments", "blanks", "unrelated", "dup", "explicit", "no_final_nl", "straddle"):
         if v.get(k):
             labels.append("decor:" + k)
+    labels.append("pcapng:" + ("be" if cont else "le"))
     nontrivial = bool(o0.pkts) and (dims >= 2 or uses_dsb)
     if f1:
         return {"sig": f"variant ({labels[1]}): " + f1, "detail": (o1.run.exc or o1.run.stderr or "")[-300:], "nontrivial": nontrivial, "labels": labels,
@@ -95,6 +97,7 @@ def variant(draw, nlines, tls_only, allow_sub=True):
         mask = draw(st.lists(st.booleans(), min_size=nlines, max_size=nlines))
         v["file"], v["file_lines"] = True, [i for i in idx if mask[i]]
         v["dsb"] = [[i for i in idx if not mask[i]]]
+    v["be"] = draw(st.sampled_from([False, False, True]))
     v["dsb_pos"] = draw(st.sampled_from(["first", "spread", "before_idb"])) if tls_only else draw(st.sampled_from(["first", "first", "before_idb"]))
     return v
 
@@ -212,6 +215,7 @@ RULE = ("stage block-boundaries: key logs of 4 KiB .. 256 KiB in which a line of
         "bytes at every kind of position; stage line-orders: for a TLS 1.3 (with and without tickets), TLS 1.2, TLS 1.0 and QUIC connection, every order of its key-log lines with one line "
         "repeated at every position (quick: 120 sampled per connection); other stages: a TLS and/or QUIC scenario is run with its canonical key log file and with a generated delivery variant: line permutation, LF/CRLF, "
         "comment / blank / unrelated / duplicate lines, last line with or without a line end, upper/lower/mixed-case hex in client random and secret, file only / DSB only (no -s) / "
+        "(the pcapng holding the blocks little- or big-endian) "
         "file + DSB / log split over 2-4 DSBs (blocks may be empty) / lines partitioned between file and DSB, DSBs before the interface description block, first after it, or (TLS-only captures) "
         "anywhere; stage dsb-only-subprocess runs `python -m tlexport.main` without -s from three different working directories; oracle: output "
         "file bytes identical to the canonical run.  Non-trivial: canonical run exports packets and the variant differs in >= 2 decoration "
